@@ -155,6 +155,9 @@ async fn run_async(case: &Case, fx: &Fixture) -> CaseResult {
     } else {
         analyzed.clone()
     };
+    if !table_function_scans(&plan, &fx.tables).is_empty() {
+        return CaseResult::discard("plan scans a table function (unparsed as a quoted table name; known limitation, not demanded)");
+    }
     let original = match exec_logical(&a.ctx, &plan).await {
         Ok(x) => x,
         Err(e) => return CaseResult::discard(format!("original plan fails to run: {:?}", err_class(&e))),
@@ -231,7 +234,7 @@ impl Property for C38 {
         (refsql::case_strategy(&gen_config(tier)), any::<bool>()).prop_map(|(sql, optimized)| Case { sql, optimized }).boxed()
     }
     fn budget(&self, tier: Tier) -> Budget {
-        Budget::new(tier.pick(800, 60_000), tier.pick(8, 16)).min_nontrivial(tier.pick(100, 5_000)).discard_cap(0.6).case_timeout(120)
+        Budget::new(tier.pick(800, 60_000), tier.pick(8, 16)).min_nontrivial(tier.pick(100, 5_000)).discard_cap(0.6).case_timeout(120).shrink(400, 60)
     }
     fn rule(&self) -> String {
         "refsql query (C01 grammar, deterministic) over 3 MemTables, analyzed or optimized logical plan, plan_to_sql (default dialect) -> text -> SessionContext::sql in a fresh session; \
@@ -246,7 +249,15 @@ impl Property for C38 {
             "refsql::deterministic_on decides whether the original plan's rows are a function of the input".into(),
         ]
     }
+    fn known_signature(&self, case: &Case) -> Option<String> {
+        signature_of("C38", "c38", case, || run_inner(case))
+    }
     fn run(&self, case: &Case) -> CaseResult {
+        finish("c38", case, cached("c38", case, || run_inner(case)))
+    }
+}
+
+fn run_inner(case: &Case) -> CaseResult {
         if !refsql::deterministic_on(&case.sql.query, &case.sql.db()) {
             return CaseResult::discard("reference: query not deterministic on this data, or reference evaluation fails");
         }
@@ -265,4 +276,3 @@ impl Property for C38 {
             Err(_) => CaseResult::inconclusive("timeout"),
         }
     }
-}
